@@ -547,6 +547,9 @@ func (t *thread) checkHashTypeEncoding(shf sighash.Flag) error {
 		if sigHashType < sighash.All || sigHashType > sighash.Single {
 			return errs.NewError(errs.ErrInvalidSigHashType, "invalid hash type 0x%x", shf)
 		}
+		if t.hasFlag(scriptflag.EnableSighashForkID) && !shf.Has(sighash.ForkID) {
+			return errs.NewError(errs.ErrIllegalForkID, "fork id sighash not set with flag")
+		}
 		return nil
 	}
 
